@@ -147,7 +147,7 @@ def check_C11(tier, seed):
 def arg_values():
     big = G.U((1 << 64) - 1)
     return [G.NULL, G.I(0), G.I(-1), big, G.F2(3), G.S("a"), G.S(""), G.B(True), G.L([]), G.L([G.I(1), G.I(2)]), G.L([G.I(1), G.NULL]), G.L([G.NULL]), G.L([G.S("a")]),
-            G.L([G.L([G.I(1)])]), G.L([G.I(1), G.S("a")]), G.L([G.F2(1)]), G.L([G.B(False)]), G.E("FOO"), G.L([G.E("A")])]
+            G.L([G.L([G.I(1)])]), G.L([G.L([G.I(1)]), G.NULL]), G.L([G.L([G.NULL])]), G.L([G.L([G.S("a"), G.NULL]), G.L([])]), G.L([G.I(1), G.S("a")]), G.L([G.F2(1)]), G.L([G.B(False)]), G.E("FOO"), G.L([G.E("A")])]
 
 def check_C12(tier, seed):
     import random
